@@ -21,7 +21,7 @@ RULE = ('cases are one key shape (primary + 0-3 subkeys, 1-2 identities with the
         'model in which the primary lacked the capability and a subkey had it, or nobody had it, or a re-binding had changed a '
         'subkey\'s capability; distinct = distinct (capability layout, operation, form, enforcement) tuples')
 TIERS = {'quick': {'runs': 4000, 'budget_s': 80}, 'thorough': {'runs': 200000, 'budget_s': 1500}}
-PROBES = ('locked_key_with_unprotected_subkey', 'last_identity_removed', 'unhashed_key_flags_added', 'recertify_without_issuer_fingerprint', 'subkey_used', 'primary_used', 'nobody_allowed_enforced', 'nobody_allowed_not_enforced', 'rebinding_changed_capability',
+PROBES = ('foreign_binding_added', 'locked_key_with_unprotected_subkey', 'last_identity_removed', 'unhashed_key_flags_added', 'recertify_without_issuer_fingerprint', 'subkey_used', 'primary_used', 'nobody_allowed_enforced', 'nobody_allowed_not_enforced', 'rebinding_changed_capability',
           'recertify_changed_capability', 'same_second_rebinding', 'form_public', 'form_locked', 'form_unlocked', 'form_unprotected', 'form_copy',
           'no_identity_key', 'user_selected_identity', 'two_capable_subkeys', 'decrypt_by_subkey', 'encrypt_on_private_refused',
           'decrypt_stored_message', 'decrypt_stored_after_capability_lost')
@@ -58,7 +58,11 @@ def generate(rng, tier):
         elif r < 0.42:
             # the key travels over a channel that adds a Key Flags subpacket to the unhashed (unauthenticated) area of its
             # self-certifications and bindings: what the signatures grant is what their hashed areas say
-            steps.append({'id': sid, 'op': 'hop_unhashed_flags', 'flags': rng.choice([0x03, 0x0C, 0x20, 0x2F, 0x00, 0x02])})
+            if rng.random() < 0.5:
+                steps.append({'id': sid, 'op': 'hop_unhashed_flags', 'flags': rng.choice([0x03, 0x0C, 0x20, 0x2F, 0x00, 0x02])})
+            else:
+                # ... or appends, to every subkey, a later binding signature issued by somebody else's key with other flags
+                steps.append({'id': sid, 'op': 'hop_foreign_binding', 'flags': rng.choice([0x02, 0x0C, 0x20, 0x2E, 0x00])})
         else:
             steps.append({'id': sid, 'op': rng.choice(['sign', 'sign', 'certify', 'encrypt', 'encrypt', 'decrypt']),
                           'form': rng.choice(['unprotected', 'unprotected', 'unlocked', 'locked', 'public', 'copy']),
@@ -147,12 +151,16 @@ def execute(case, ctx):
         if op == 'tick':
             clock.advance(step['delta_us'])
             continue
-        if op == 'hop_unhashed_flags':
-            ctx.probe('unhashed_key_flags_added')
+        if op in ('hop_unhashed_flags', 'hop_foreign_binding'):
+            ctx.probe('unhashed_key_flags_added' if op == 'hop_unhashed_flags' else 'foreign_binding_added')
             names = [str(u.name) for u in uid_objs]
             subfps = [str(so.fingerprint) for so in sub_objs]
             try:
-                key = pgpy.PGPKey.from_blob(_add_unhashed_flags(bytes(key), step['flags']))[0]
+                if op == 'hop_unhashed_flags':
+                    wire = _add_unhashed_flags(bytes(key), step['flags'])
+                else:
+                    wire = _add_foreign_bindings(bytes(key), step['flags'], clock.us // 1_000_000 + 3600, case['run_seed'], step['id'])
+                key = pgpy.PGPKey.from_blob(wire)[0]
             except Exception as e:
                 ctx.viol('C16:tampered-key-unreadable:%s' % type(e).__name__, 'a key with a Key Flags subpacket added to unhashed areas cannot be loaded: %s' % e)
             uid_objs = [next(u for u in key.userids if str(u.name) == n) for n in names]
@@ -229,6 +237,30 @@ def execute(case, ctx):
         ctx.event(step['id'], op, form, ctx.oracle_evals, sorted(ctx.probes.items()))
     if shapes:
         ctx.mark_nontrivial(';'.join(sorted(shapes)))
+
+
+def _add_foreign_bindings(keybytes, flags, created, run_seed, label):
+    """after every subkey's own signatures: one more 0x18 binding, made by an unrelated key over (that key, this subkey)"""
+    from ..ref.wire import encode_packet
+    from .c05 import make_ref_key
+    mb, malg, msec = make_ref_key('ed25519', 1_500_000_000, b'', run_seed, label='c16mallory' + label)
+    mpub = rkeys.parse_pub(mb)
+    pk = split_packets(keybytes)
+    out = bytearray()
+    pending = None
+    for i, p in enumerate(pk):
+        if p.tag in (7, 14) or (pending is not None and p.tag != 2):
+            if pending is not None:
+                out += pending
+                pending = None
+        if p.tag in (7, 14):
+            spub = rkeys.parse_pub(p.body)
+            h = rsigs.sp_created(created) + rsigs.sp_keyflags(flags) + rsigs.sp_issuer_fpr(mpub.fingerprint)
+            pending = encode_packet(2, rsigs.sign(0x18, mpub, msec, 8, h, rsigs.sp_issuer(mpub.keyid), rsigs.subject_subkey(mpub, spub)))
+        out += p.raw
+    if pending is not None:
+        out += pending
+    return bytes(out)
 
 
 def _add_unhashed_flags(keybytes, flags):
